@@ -4,6 +4,18 @@ import json, os, subprocess
 V = os.path.dirname(os.path.dirname(os.path.abspath(__file__)))
 
 CHECKS = {
+    "C05": dict(
+        text="Executable Gallina mirrors of DeepFinder::find_first and Metainfo::from_bencode, and an independent "
+             "span-splitting specification (InfoSpec.info_span) of `the exact bytes of the top-level info value`. Proved: "
+             "what is hashed is exactly find_first's answer (C05_hash_input) and the full statement is refuted by three "
+             "witness theorems, one per known-finding class (nested key found first, duplicate info key, truncated tail). "
+             "Outside those classes the property is decided by the correspondence: implementation's find_first bytes = "
+             "model = independent span, and hash = SHA-1 of those bytes, on a torrent grammar with extras.",
+        note="Partial: no general Coq theorem yet that find_first equals the span outside the known classes (needs the "
+             "re-serialisation identity lemma). SHA-1 uninterpreted. Unmodelled: scanner state after an ignored error "
+             "(unreachable for accepted documents). No axioms.",
+        technique="Coq model + refutation theorems (vm_compute witnesses) + differential correspondence with independent span oracle",
+        design="2/C05"),
     "C07": dict(
         text="Machine-checked Coq theorems over an executable Gallina mirror of every Serializer::data, Frame::parse and "
              "Bitfield::{from_vec,to_vec}: layout equals the independently written BEP3 relation, parse(encode m ++ rest) "
@@ -35,6 +47,17 @@ CHECKS = {
              "nesting. Trusted: Coq kernel, correspondence harness, hand-written model. No axioms.",
         technique="Coq proof (mutual induction over grammar / fuel) + exhaustive small-scope and random differential correspondence",
         design="2/C16"),
+    "C17": dict(
+        text="Coq theorems over the Metainfo model (built on the proved bencode decoder model): parsing never panics for "
+             "any byte string; a successful parse yields exactly the fields one top-level dictionary states (FieldsOf); "
+             "every accessor (piece, piece_length, total_length, file_piece_ranges) is panic-free for every valid index "
+             "with overflow checks on and off. Two genuine defects found by the check were repaired by fix: commits "
+             "(piece length 0, overflowing total). create_file -> parse is tied by correspondence with SHA-1 of every "
+             "256 KiB chunk recomputed by the driver.",
+        note="Partial: the create->parse round trip has no Coq proof. UTF-8 validity and decimal parsing are hand models "
+             "of std, tied by correspondence. No axioms.",
+        technique="Coq proof (invariants over folds, case analysis) + differential correspondence",
+        design="2/C17"),
 }
 
 NOT_APPLICABLE = {}
